@@ -94,7 +94,7 @@ def _prune(keep):
             continue
         # only prune builds not touched for 20 minutes (another check may be using them)
         try:
-            if time.time() - os.path.getmtime(d) > 1200:
+            if time.time() - os.path.getmtime(d) > 3 * 3600:
                 shutil.rmtree(d, ignore_errors=True)
         except OSError:
             pass
